@@ -16,7 +16,7 @@ run_demo() {  # $1 = tag
   (cd $wt && PYTHONPATH=$wt setsid timeout -k 2 400 /venv/bin/python $dn > $out.demo_$1.txt 2>&1 < /dev/null; echo "exit=$?" >> $out.demo_$1.txt)
 }
 run_demo without
-git -C $wt apply $src/patch.diff || { echo "patch does not apply" > $out.verdict; git -C /repo worktree remove --force $wt; exit 4; }
+git -C $wt apply $src/patch.diff 2>/dev/null || git -C $wt apply -C1 $src/patch.diff || { echo "patch does not apply" > $out.verdict; git -C /repo worktree remove --force $wt; exit 4; }
 (cd $wt && /venv/bin/python -m compileall -q loky > $out.compile.txt 2>&1; echo "exit=$?" >> $out.compile.txt)
 run_demo with
 if [ "$mode" = full ]; then
